@@ -224,6 +224,18 @@ Subscribes(lst, ev) ==
           /\ lst.C \cap ev.removed # {}
 
 Delivered(w, evs) == { ev \in evs : Subscribes(w.cfg.lst, ev) }
+DeliveredTo(lst, evs) == { ev \in evs : Subscribes(lst, ev) }
+
+(* listener.Dispatch: the world sees the union of the sub-listeners (event types OR-ed,      *)
+(* components OR-ed, or unrestricted as soon as one sub-listener is), then every sub-listener *)
+(* applies its own rule.                                                                      *)
+UnionListener(subs) ==
+    [on |-> TRUE,
+     S |-> LET B == UNION { BitsOf(subs[i].S) : i \in DOMAIN subs } IN
+           Bit(1 \in B, 1) + Bit(2 \in B, 2) + Bit(4 \in B, 4) + Bit(8 \in B, 8) + Bit(16 \in B, 16) + Bit(32 \in B, 32),
+     C |-> UNION { subs[i].C : i \in DOMAIN subs },
+     hasC |-> \A i \in DOMAIN subs : subs[i].hasC]
+DispatchDelivers(subs, i, ev) == Subscribes(UnionListener(subs), ev) /\ Subscribes(subs[i], ev)
 
 ---------------------------------------------------------------------------
 (* Operations.  For every operation:                                        *)
